@@ -19,11 +19,17 @@ def max_rank_of(ast):
 def gen_extras(rng, name, ast):
     mr = max_rank_of(ast)
     if name == 'gen':
-        if mr >= 1 and rng.random() < 0.5:
+        r = rng.random()
+        if r < 0.08:
+            return [mr + rng.randint(1, 2)]      # cut-off above the maximum rank: no stage at all (outside C02's scope)
+        if mr >= 1 and r < 0.55:
             return [rng.randint(1, mr)]
         return []
     if name == 'gre':
-        if rng.random() < 0.5:
+        r = rng.random()
+        if r < 0.05:
+            return [0]                           # no stage at all (outside C02's scope)
+        if r < 0.55:
             return [rng.randint(1, mr + 2)]
         return []
     if name in ('mincost', 'minsqcost', 'mincostlsb'):
